@@ -281,7 +281,7 @@ func runTree(t *Node, skip, rev, nocall *big.Int, universe []common.Address) *ru
 			_, _, retLogs, cerr = evm.Call(vm.AccountRef(originAddr), nodeAddr(n.ID), nil, rootGas, new(big.Int).SetUint64(n.Val))
 		}
 		if cerr != nil {
-			out.Err += fmt.Sprintf("tx%d:%s;", txi, cerr.Error())
+			out.Err += fmt.Sprintf("tx%d:failed;", txi) // success / failure only: the error text of a failing frame may differ
 		}
 		for _, l := range retLogs {
 			out.RetLogs = append(out.RetLogs, fmtRetLog(l))
@@ -383,7 +383,8 @@ func comparePair(a *Node) *pairResult {
 			if entryAll {
 				noEntry = append(noEntry, d.ID)
 				if ex == nil {
-					ex = &exempt{nonceOf: map[string]bool{fmt.Sprintf("%x", originAddr[:]): true}, accounts: map[string]bool{}}
+					// the origin's account object only exists because a top-level creation bumps its nonce
+					ex = &exempt{nonceOf: map[string]bool{}, accounts: map[string]bool{fmt.Sprintf("%x", originAddr[:]): true}}
 					a.walk(func(n, _ *Node, _ int, _ bool) {
 						if !isCreateKind(n.Kind) {
 							ad := nodeAddr(n.ID)
